@@ -596,7 +596,9 @@ class RFBClient(Protocol):  # type: ignore[misc]
         self.expect(self._handleVNCAuthResult, 4)
 
     def _encryptArd(self) -> None:
-        userStruct = f"{self.factory.username:\0<64}{self.factory.password:\0<64}"
+        userStruct = self.factory.username.encode("utf-8").ljust(
+            64, b"\0"
+        ) + self.factory.password.encode("utf-8").ljust(64, b"\0")
 
         s = bytes_to_long(os.urandom(512))
         g = self.generator
@@ -611,7 +613,7 @@ class RFBClient(Protocol):  # type: ignore[misc]
         keyDigest = h.digest()
 
         cipher = AES.new(keyDigest, AES.MODE_ECB)
-        ciphertext = cipher.encrypt(userStruct.encode("utf-8"))
+        ciphertext = cipher.encrypt(userStruct)
         self.transport.write(ciphertext + key)
 
     def ardRequestCredentials(self) -> None:
